@@ -1,5 +1,5 @@
 """C11 — uncommitted changes are never swept into the bump commit."""
-import os, itertools
+import os, json, itertools
 import impl_adapter as impl
 import sandbox
 from common import load_known_findings
@@ -128,6 +128,51 @@ def e2e(target, state, allow, pat_name="ver.txt", extra_dirty=None, key=None):
     return case, verdict, status
 
 
+def submodule_case(staged):
+    """a SUBMODULE whose checked-out commit moved (`git status` lists ` M vendor/lib`): an uncommitted change like any other — without
+    --allow-dirty the update must abort before touching a file"""
+    import tempfile, shutil, subprocess
+    case = {"kind": "submodule", "staged": staged}
+    sub = tempfile.mkdtemp(prefix="c11sub-", dir=sandbox.scratch_root())
+    try:
+        with sandbox.Project("c11m") as pr:
+            env = dict(os.environ, GIT_CONFIG_GLOBAL="/dev/null", GIT_CONFIG_SYSTEM="/dev/null", GIT_AUTHOR_NAME="t", GIT_AUTHOR_EMAIL="t@e",
+                       GIT_COMMITTER_NAME="t", GIT_COMMITTER_EMAIL="t@e")
+            def g(cwd, *a):
+                return subprocess.run(["git", "-c", "protocol.file.allow=always"] + list(a), cwd=cwd, env=env, capture_output=True, text=True)
+            g(sub, "init", "-q", "-b", "main")
+            open(os.path.join(sub, "lib.txt"), "w").write("lib 1\n")
+            g(sub, "add", "-A"); g(sub, "commit", "-q", "-m", "lib 1")
+            pr.write_text("bumpver.toml", CFG % json.dumps("ver.txt"))
+            pr.write_text("ver.txt", "version 1.2.3\n")
+            pr.git_init(separate=False)
+            r = g(pr.dir, "submodule", "add", "-q", sub, "vendor/lib")
+            if r.returncode != 0:
+                return None, None
+            pr.git("add", "-A"); pr.git("commit", "-q", "-m", "init")
+            # move the submodule's checked-out commit
+            open(os.path.join(pr.dir, "vendor/lib", "lib.txt"), "w").write("lib 2\n")
+            g(os.path.join(pr.dir, "vendor/lib"), "commit", "-q", "-am", "lib 2")
+            if staged:
+                pr.git("add", "vendor/lib")
+            status = pr.git("status", "--porcelain", "--untracked-files=all")
+            case["status"] = status
+            if "vendor/lib" not in status:
+                return None, None
+            before = pr.snapshot()
+            head0 = pr.git("rev-parse", "HEAD").strip()
+            code, out, exc = sandbox.run_cli(["update", "--patch", "--no-fetch"], pr.dir)
+            after = pr.snapshot()
+            head1 = pr.git("rev-parse", "HEAD").strip()
+        case.update(exit=code)
+        if code == 0 or after != before or head1 != head0:
+            return case, "update proceeded (exit %s) although the working tree is dirty (submodule pointer moved, %s): files changed %s, new commit %s" % (
+                code, "staged" if staged else "unstaged", after != before, head1 != head0)
+        return case, None
+    finally:
+        shutil.rmtree(sub, ignore_errors=True)
+
+
 def synth_status(rng):
     codes = [" M", "M ", "MM", "A ", "AM", " D", "D ", "??", "R ", "C ", "UU", "!!", " T", "T ", "AD", "?? ", ""]
     paths = ["a.txt", "bumpver.toml", "src/x.py", "notes.txt", "ver.txt", '"a b.txt"', "old.txt -> a.txt", "Z", "é.txt", '"\\303\\251.txt"', " lead.txt"]
@@ -196,6 +241,11 @@ def run(chk, driver, tier):
             continue
         chk.count("key_spelling:" + key)
         chk.oracle_case(case, verdict)
+    for staged in (False, True):
+        case, verdict = submodule_case(staged)
+        if case is not None:
+            chk.count("submodule:%s" % ("staged" if staged else "unstaged"))
+            chk.oracle_case(case, verdict)
     chk.exhaustive = True
     # pattern files whose names git C-quotes: known finding F-C11-quoted
     for pat_name in ["a b.txt", "é.txt"]:
